@@ -3,6 +3,8 @@ import TonicModel.Basic.ConnScript
 import TonicModel.Basic.ErrChain
 import TonicModel.Model.Reconnect
 import TonicModel.Spec.Reconnect
+import TonicModel.Model.ReconnectAbandon
+import TonicModel.Spec.ReconnectAbandon
 import Driver.C14Bal
 namespace DriverC14
 open Proto ConnScript Reconnect ErrChain
@@ -383,9 +385,46 @@ def parseNBuild (t : String) : Option NBuild :=
   else if t = "build:hang" then some .hang
   else (natAfter "build:err" t).map .error
 
+/-! e2a: scripts with abandoned calls -/
+
+def aop? (c : Char) : Option AOp :=
+  if c = 'c' then some .call else if c = 'd' then some .die else if c = 'A' then some .abandon else none
+
+def aevTok : AEv → String
+  | .die => "d"
+  | .abandoned a => s!"A:a{a}"
+  | .call res a => evTok (.call res a)
+
+def parseAEv (t : String) : Option AEv :=
+  match natAfter "A:a" t with
+  | some a => some (.abandoned a)
+  | none =>
+    match parseEv t with
+    | some .die => some .die
+    | some (.call res a) => some (.call res a)
+    | some (.pair _ _ _) => none
+    | none => none
+
 def handleCase (case obs : List String) : String × String :=
   match case with
   | "bal" :: rest => DriverC14Bal.handle rest obs
+  | ["e2a", m, outsS, opsS] =>
+    if (chars outsS).any (fun c => c = 'T' ∨ c = 't') then bad else
+    match mode? m, parseAll (fun s => (s.toList.head?).bind outcome?) ((chars outsS).map (String.singleton ·)),
+          parseAll (fun s => (s.toList.head?).bind aop?) ((chars opsS).map (String.singleton ·)) with
+    | some isLazy, some outs, some ops =>
+      let t := Reconnect.Abandon.run isLazy outs ops
+      let model := String.intercalate " "
+        (buildTok { build := t.build, buildAttempts := t.buildAttempts, evs := [] } :: t.evs.map aevTok)
+      let v := match obs with
+        | b :: evs =>
+          match parseBuild b, parseAll parseAEv evs with
+          | some (br, a), some evs =>
+            verdict (Spec.ReconnectAbandon.clausesA isLazy outs ops { build := br, buildAttempts := a, evs := evs })
+          | _, _ => "fail:unparsable-observation"
+        | [] => "fail:unparsable-observation"
+      (model, v)
+    | _, _, _ => bad
   | ["unit", m, envS, opsS] =>
     match mode? m, ansOfChars 0 (chars envS), parseAll (fun s => (s.toList.head?).bind uop?) ((chars opsS).map (String.singleton ·)) with
     | some isLazy, some env, some ops =>
